@@ -245,6 +245,13 @@ func vfC12RelayRun(cs vfC12RelayCase) string {
 	// whatever state this left: both ends give up
 	g.cliIn.feed(vfEncodeLine("fail", []byte("giving up"), "\n"))
 	g.srvOut.feed(vfEncodeLine("FAIL", []byte("giving up"), nl))
+	// The rig ends the case by closing the relay's inputs (EOF). A handshake worker that is still busy then writes into a channel
+	// its reader side has closed - "send on closed channel" - which is what the end of a relay's life looks like, not a reaction
+	// to input (see DESIGN §8.3): the worker is given time to finish first.
+	deadline := time.Now().Add(3 * time.Second)
+	for g.relay.relayStatus.Load() != kRelayStandBy && time.Now().Before(deadline) {
+		time.Sleep(time.Millisecond)
+	}
 	time.Sleep(10 * time.Millisecond)
 	return ""
 }
